@@ -28,6 +28,10 @@ type RunResult struct {
 	TraceHash  uint64
 	Trace      any // human-readable trace (written to samples and replay files)
 	Steps      int // logical time covered
+	// Cases > 1: the run evaluated several cases (e.g. one history under every failure plan);
+	// CaseHashes are the hashes of those that were non-trivial.
+	Cases      int
+	CaseHashes []uint64
 	// Soft are violations after which the run went on (the oracle could neutralise them): each is
 	// either a listed known finding (counted) or promoted to the run's violation.
 	Soft []*Violation
@@ -214,6 +218,17 @@ func RunWorker(cfg WorkerConfig) int {
 		ctx.Shrink = false
 		res := cfg.Prop.Run(ctx, tape)
 		part.Runs++
+
+		if res.Cases > 1 {
+			part.Runs += int64(res.Cases - 1)
+		}
+
+		for _, h := range res.CaseHashes {
+			if !seen[h] {
+				seen[h] = true
+				part.Nontrivial++
+			}
+		}
 		part.Steps += int64(res.Steps)
 
 		if res.OrderSensitive {
